@@ -19,3 +19,23 @@ pub use state::{Allocation, AllocationId, AllocationState, QueueId};
 
 #[cfg(test)]
 pub use service::tests::test_alloc_service;
+
+/// Verification hooks (feature `verif` only, add-only): re-exports of the otherwise private
+/// autoalloc internals for the external harness in /verif.
+#[cfg(feature = "verif")]
+pub mod verif_api {
+    pub use super::config::{
+        MAX_QUEUED_STATUS_ERROR_COUNT, MAX_RUNNING_STATUS_ERROR_COUNT, MAX_SUBMISSION_FAILS,
+        SUBMISSION_DELAYS, max_allocation_fails,
+    };
+    pub use super::process::verif_api::*;
+    pub use super::queue::{
+        AllocationExternalStatus, AllocationStatusMap, AllocationSubmissionResult, QueueHandler,
+        SubmitMode,
+    };
+    pub use super::service::AutoAllocMessage;
+    pub use super::state::{
+        AllocationQueue, AllocationQueueState, AutoAllocState, DisconnectedWorkers, RateLimiter,
+        RateLimiterStatus,
+    };
+}
